@@ -309,6 +309,11 @@ def key_pools(draw, cfg, n=(3, 6), stable_only=False):
             if key_ok(cfg, k) and not any(k == b for b in built) and not (is_dir(cfg) and any(fname(k) == fname(b) for b in built)):
                 pool.append(spec)
                 built.append(k)
+    if is_dir(cfg) and draw(st.integers(0, 5)) == 0:
+        # a key whose entry name is at (or just under) the file-name length limit: 'K_' + key fits in 255 bytes, anything longer derived from it does not
+        spec = ['s', 'k' * draw(st.sampled_from([253, 252, 251, 200]))]
+        if key_ok(cfg, build_key(spec)):
+            pool.append(spec)
     if not pool:
         pool = [['s', 'a']]
     return pool
